@@ -20,6 +20,7 @@ THEORIES = ['theories/L5Cover/BoxesProofs.vo',
             'theories/L5Cover/CoverEnumStep.vo',
             'theories/L5Cover/CoverEnumExact.vo',
             'theories/L5Cover/MinCoverTotal.vo',
+            'theories/L5Cover/CoverEnumOldLeaf.vo',
             'theories/L5Cover/CoverEnumRefutedTotal.vo']
 
 HEADER = cq.HEADER + ('From Omega Require Import L5Cover.MinCover '
